@@ -7,11 +7,15 @@ lex_html(out)   -> events ('o', name, ((attr, quote, raw), ...), selfclosed) | (
 WS = ' \t\r\n'
 
 
-def lex_html(s):
+def lex_html(s, spans=None):
+    """`spans`: optional list that receives (start, end) of every event, parallel to the returned events"""
     ev = []
     i = 0
     n = len(s)
     while i < n:
+        if spans is not None and len(spans) < len(ev):
+            spans.append((_start, i))
+        _start = i
         if s.startswith('<!--', i):
             j = s.find('-->', i)
             j = n if j < 0 else j + 3
@@ -84,6 +88,8 @@ def lex_html(s):
             j += 1
         ev.append(('t', s[i:j]))
         i = j
+    if spans is not None and len(spans) < len(ev):
+        spans.append((_start, i))
     return ev
 
 
